@@ -86,6 +86,16 @@ func (c *stallChannel) OpenConnection() (net.Conn, error) {
 	return a, nil
 }
 
+// failChannel: a service that cannot be reached, and says so only after a while (a dial that times out)
+type failChannel struct{ after time.Duration }
+
+func (c *failChannel) String() string { return "slowfail" }
+func (c *failChannel) Name() string   { return "slowfail" }
+func (c *failChannel) OpenConnection() (net.Conn, error) {
+	time.Sleep(c.after)
+	return nil, fmt.Errorf("dial: i/o timeout")
+}
+
 // addListener starts one more socket listener (same upstreams) for the named channel
 func (w *e2e) addListener(name string, cfg cert.TlsConfig, fwd string) (string, error) {
 	lp := freePort()
@@ -127,7 +137,7 @@ func newE2E(carrier string, relay func(target string) string) (*e2e, error) {
 	w.stops = append(w.stops, func() { w.target.ln.Close() })
 	chans := channelsFor(map[string]string{"svc": w.target.ln.Addr().String(), "svc2": w.target.ln.Addr().String()})
 	w.stallConns = make(chan net.Conn, 64)
-	chans = append(chans, &stallChannel{conns: w.stallConns})
+	chans = append(chans, &stallChannel{conns: w.stallConns}, &failChannel{after: 400 * time.Millisecond})
 	var url string
 	var ccfg cert.TlsConfig = clientCfg("none", false, true)
 	scert := "none"
